@@ -10,7 +10,7 @@
    filter, every iteration order. *)
 From Coq Require Import ZArith List Bool Permutation Sorted.
 From Verif Require Import Annotate.Model Annotate.SortProofs Annotate.Plans Annotate.Determinism
-  Annotate.Date Annotate.GenOk C11.Spec C11.Proofs C11.Exact C11.TimeTravel C11.Generic C11.FindVisibleSpec C11.Mixed C11.Any C11.SpecDomain C12.Proofs.
+  Annotate.Date Annotate.GenOk C11.Spec C11.Proofs C11.Exact C11.TimeTravel C11.Generic C11.FindVisibleSpec C11.Mixed C11.Any C11.SpecDomain C11.Upper C11.Witness2 C12.Proofs.
 From VerifGen Require Import GenAnnotate GenAnnotateConst.
 Import ListNotations.
 Open Scope Z_scope.
@@ -173,7 +173,8 @@ Print Assumptions C11_between_visible.
       location of the child version current at t.
       Extra hypotheses: [hist_ok] distinct versions, [versions_mono] versions increase with the
       position (theorem 12), [stamp_consistent] the update stamp of a version is its commit time,
-      and the versions between the selected one and t are visible (automatic without
+      and the version CURRENT AT t, when later than the selected one, is visible (deleted versions
+      in between are skipped under IgnoreInconsistency and do not matter; automatic without
       IgnoreInconsistency: theorem 9'). *)
 Theorem C11_time_travel :
   forall cis o ps hist entries sortf ps' results p par j r cl s,
@@ -188,7 +189,7 @@ Theorem C11_time_travel :
   visible_only (current_at cis cl (pstamp cis par)) = Some s ->
   forall is_rel t par' us refs' pend,
   in_window_commit cis ps p par t ->
-  (forall ck, In ck cl -> (c_vidx s < c_vidx ck)%nat -> stamp cis ck <= t -> c_visible ck = true) ->
+  (forall e, current_at cis cl t = Some e -> (c_vidx s < c_vidx e)%nat -> c_visible e = true) ->
   nth_error ps' p = Some par' -> nth_error results p = Some us ->
   apply_updates_up_to is_rel t (p_refs par') us = ApplyOk refs' pend ->
   exists e r', current_at cis cl t = Some e /\ nth_error refs' j = Some r' /\ ref_carries r' e.
@@ -281,7 +282,7 @@ Theorem C11_time_travel_generic :
   find_visible cis cl (p_changeset par) (pstamp cis par) (o_threshold o) = Some s ->
   forall is_rel t par' us refs' pend,
   before_bound cis o (nth_error ps (S p)) t ->
-  (forall ck, In ck cl -> (c_vidx s < c_vidx ck)%nat -> stamp cis ck <= t -> c_visible ck = true) ->
+  (forall e, current_at cis cl t = Some e -> (c_vidx s < c_vidx e)%nat -> c_visible e = true) ->
   nth_error ps' p = Some par' -> nth_error results p = Some us ->
   apply_updates_up_to is_rel t (p_refs par') us = ApplyOk refs' pend ->
   exists e r', later (Some s) (current_at cis cl t) = Some e /\ nth_error refs' j = Some r' /\ ref_carries r' e.
@@ -364,7 +365,7 @@ Theorem C11_time_travel_any :
   find_visible cis cl (p_changeset par) (pstamp cis par) (o_threshold o) = Some s ->
   forall is_rel t par' us refs' pend,
   before_bound cis o (nth_error ps (S p)) t ->
-  (forall ck, In ck cl -> (c_vidx s < c_vidx ck)%nat -> stamp cis ck <= t -> c_visible ck = true) ->
+  (forall e, current_at cis cl t = Some e -> (c_vidx s < c_vidx e)%nat -> c_visible e = true) ->
   nth_error ps' p = Some par' -> nth_error results p = Some us ->
   apply_updates_up_to is_rel t (p_refs par') us = ApplyOk refs' pend ->
   exists e r', later (Some s) (current_at cis cl t) = Some e /\ nth_error refs' j = Some r' /\ ref_carries r' e.
@@ -426,6 +427,169 @@ Proof.
   eexists. eexists. eexists. split; [vm_compute; reflexivity|]. split; [vm_compute; reflexivity|].
   split; [vm_compute; reflexivity|]. split; [vm_compute; reflexivity|].
   eexists. eexists. eexists. split; [reflexivity|]. split; vm_compute; reflexivity.
+Qed.
+
+(* 18. what FindVisible can select in EVERY mixture of versions with and without commit times
+       (upper bound; theorem C11_find_visible_covers is the lower bound): the selected version is
+       visible, stamped no later than at + eps, and if it is stamped after [at] it has no commit
+       time and belongs to the parent's changeset. *)
+Theorem C11_find_visible_selectable : forall cis cl cid at_ eps x,
+  0 <= eps -> find_visible cis cl cid at_ eps = Some x ->
+  c_visible x = true /\ stamp cis x <= at_ + eps /\
+  (at_ < stamp cis x -> ts_child cis x = true /\ c_changeset x = cid).
+Proof. exact find_visible_selectable. Qed.
+Print Assumptions C11_find_visible_selectable.
+
+(* 18'. ground truth for the commonest mixed shape: when every version WITHOUT commit time is
+        stamped before the window (element created before CommitInfoStart, edited after it, seen
+        from a later parent version), FindVisible = the version current at [at] if visible —
+        generalises theorem 1 (no version without commit time at all). *)
+Theorem C11_find_visible_old_before_window : forall cis cid at_ eps cl,
+  0 <= eps -> stamps_monotone cis cl = true ->
+  (forall c, In c cl -> ts_child cis c = true -> stamp cis c < at_ - eps) ->
+  find_visible cis cl cid at_ eps = visible_only (current_at cis cl at_).
+Proof. exact find_visible_old_before_window. Qed.
+Print Assumptions C11_find_visible_old_before_window.
+
+(* 19. updates_exact in EVERY regime and mixture: the update list of parent p holds, at index j,
+       exactly the visible versions later than the selected one and inside [bound_gen]: no bound for
+       the last parent version; otherwise, with nx the version selected for the NEXT parent version
+       (what that version's reference carries, theorem 2'): the versions before nx, and nx itself
+       iff it is stamped before the next parent's bound (its commit time, or its timestamp less
+       the threshold); when nothing is selected for the next parent version: the versions stamped
+       before that bound.  In the commit regime [bound_gen] is [bound_ok] of theorem 8. *)
+Theorem C11_updates_exact_generic :
+  forall cis o ps hist entries sortf ps' results p par j r cl s,
+  valid_order o ps entries -> sort_spec less sortf ->
+  compute_with cis o ps hist entries sortf = Ok (ps', results) ->
+  nth_error ps p = Some par -> p_visible par = true ->
+  nth_error (p_refs par) j = Some r -> filtered_out (o_filter o) r = false ->
+  hist (r_id r) = HFound cl -> cl <> [] ->
+  vidx_ok cl -> stamps_monotone cis cl = true ->
+  find_visible cis cl (p_changeset par) (pstamp cis par) (o_threshold o) = Some s ->
+  exists us,
+    nth_error results p = Some us /\
+    forall u, (In u us /\ u_index u = j) <->
+      exists ck, In ck cl /\ c_visible ck = true /\ u = child_update cis ck j /\
+                 (c_vidx s < c_vidx ck)%nat /\ bound_gen cis o cl (nth_error ps (S p)) ck.
+Proof. exact updates_exact_generic. Qed.
+Print Assumptions C11_updates_exact_generic.
+
+(* 19'. the two-sided bracket in terms of stamps only: a visible later version stamped before the
+        next parent's bound IS an update (theorem 13''), and every update is stamped no later than
+        the end of the next parent's window *)
+Theorem C11_bound_gen_upper : forall cis o cl n ck i,
+  0 <= o_threshold o -> vidx_ok cl -> stamps_monotone cis cl = true ->
+  nth_error cl i = Some ck -> bound_gen cis o cl (Some n) ck ->
+  stamp cis ck <= pstamp cis n + o_threshold o.
+Proof. exact bound_gen_upper. Qed.
+Print Assumptions C11_bound_gen_upper.
+
+(* 20. theorem 13 without any visibility side condition when IgnoreInconsistency is off (pure
+       regimes).  In theorems 9, 13 and 16 the side condition is only that the version CURRENT AT t,
+       if later than the selected one, is visible: deleted versions in between are skipped by
+       Compute (with IgnoreInconsistency) and do not matter. *)
+Theorem C11_time_travel_generic_strict :
+  forall cis o ps hist entries sortf ps' results p par j r cl s,
+  hist_ok hist -> valid_order o ps entries -> sort_spec less sortf ->
+  compute_with cis o ps hist entries sortf = Ok (ps', results) ->
+  nth_error ps p = Some par -> p_visible par = true ->
+  nth_error (p_refs par) j = Some r -> filtered_out (o_filter o) r = false ->
+  hist (r_id r) = HFound cl -> cl <> [] ->
+  vidx_ok cl -> stamps_monotone cis cl = true -> versions_mono cl ->
+  (forall ck, In ck cl -> stamp_consistent cis ck = true) ->
+  0 <= o_threshold o -> regime_ok cis cl (nth_error ps (S p)) ->
+  find_visible cis cl (p_changeset par) (pstamp cis par) (o_threshold o) = Some s ->
+  forall is_rel t par' us refs' pend,
+  o_ignore_incons o = false ->
+  before_bound cis o (nth_error ps (S p)) t ->
+  nth_error ps' p = Some par' -> nth_error results p = Some us ->
+  apply_updates_up_to is_rel t (p_refs par') us = ApplyOk refs' pend ->
+  exists e r', later (Some s) (current_at cis cl t) = Some e /\ nth_error refs' j = Some r' /\ ref_carries r' e.
+Proof. exact time_travel_generic_strict. Qed.
+Print Assumptions C11_time_travel_generic_strict.
+
+(* ---- non-vacuity with SEVERAL parent versions (C11/Witness2.v, commit regime): P1 references
+   node 100 twice and node 101, P2 is committed in the same instant as v3 of node 100, P3 is a
+   deleted version, P4 follows.  For p = 0 the next parent exists, so np_commit, bound_ok,
+   in_window_commit and before_bound are not trivially true. ---- *)
+Example C11_hyps_two_parents :
+  vidx_ok t_cl100 /\ versions_mono t_cl100 /\ t_cl100 <> [] /\ stamps_monotone t_cis t_cl100 = true /\
+  forallb (commit_child t_cis) t_cl100 = true /\
+  (forall ck, In ck t_cl100 -> stamp_consistent t_cis ck = true) /\
+  (exists par n, nth_error t_parents 0 = Some par /\ nth_error t_parents 1 = Some n /\
+                 commit_parent t_cis par = true /\ np_commit t_cis (nth_error t_parents 1) /\
+                 in_window_commit t_cis t_parents 0 par (t_t 3) /\
+                 before_bound t_cis t_opts (nth_error t_parents 1) (t_t 3) /\
+                 regime_ok t_cis t_cl100 (nth_error t_parents 1) /\
+                 option_map c_version (visible_only (current_at t_cis t_cl100 (pstamp t_cis par))) = Some 1 /\
+                 (* v3 is committed in the same instant as P2: inside the window's closure, NOT an update of P1 *)
+                 option_map c_version (current_at t_cis t_cl100 (pstamp t_cis n)) = Some 3) /\
+  valid_order t_opts t_parents t_entries.
+Proof.
+  split; [apply to_child_list_vidx_ok|]. split; [apply to_child_list_versions_mono|].
+  split; [vm_compute; discriminate|]. split; [vm_compute; reflexivity|]. split; [vm_compute; reflexivity|].
+  split; [apply forallb_forall; vm_compute; reflexivity|]. split; [|apply Permutation.Permutation_refl].
+  eexists. eexists. split; [reflexivity|]. split; [reflexivity|].
+  split; [vm_compute; reflexivity|]. split; [vm_compute; reflexivity|].
+  split; [split; vm_compute; [discriminate|reflexivity]|].
+  split; [vm_compute; reflexivity|].
+  split; [left; split; vm_compute; reflexivity|].
+  split; vm_compute; reflexivity.
+Qed.
+
+(* the result: repeated child annotated at both indices; P1's updates are v2 of node 100 at both
+   indices and v2 of node 101, but NOT v3 (committed with P2); P2 carries v3 and gets v4 only (P3,
+   although deleted, bounds it); the deleted P3 is untouched with no updates; P4 carries v5 *)
+Example C11_instance_two_parents :
+  exists ps' us,
+    compute_with t_cis t_opts t_parents t_hist t_entries (isort less) = Ok (ps', us) /\
+    map (fun p => map r_version (p_refs p)) ps' = [[1; 1; 1]; [3]; [0]; [5]] /\
+    map (map (fun u => (u_index u, u_version u))) us
+      = [[(0%nat, 2); (1%nat, 2); (2%nat, 2)]; [(0%nat, 4)]; []; [(0%nat, 6)]] /\
+    (exists par' us0 refs pend, nth_error ps' 0 = Some par' /\ nth_error us 0 = Some us0 /\
+       apply_updates_up_to false (t_t 3) (p_refs par') us0 = ApplyOk refs pend /\
+       map r_version refs = [2; 2; 2] /\
+       option_map c_version (current_at t_cis t_cl100 (t_t 3)) = Some 2).
+Proof.
+  eexists. eexists. split; [vm_compute; reflexivity|]. split; [vm_compute; reflexivity|].
+  split; [vm_compute; reflexivity|].
+  eexists. eexists. eexists. eexists. split; [reflexivity|]. split; [reflexivity|].
+  split; [vm_compute; reflexivity|]. split; vm_compute; reflexivity.
+Qed.
+
+(* with a ChildFilter accepting node 100 only: the already annotated reference to node 101 is left
+   alone and gets no updates (theorems above are stated for unfiltered references) *)
+Example C11_instance_filter :
+  filtered_out (o_filter t_opts_f) (mkRef 101 1 21 7 7 0) = true /\
+  filtered_out (o_filter t_opts_f) (mkRef 100 0 0 0 0 0) = false /\
+  exists ps' us,
+    compute_with t_cis t_opts_f t_parents_f t_hist t_entries_f (isort less) = Ok (ps', us) /\
+    map (fun p => map (fun r => (r_version r, r_changeset r)) (p_refs p)) ps' = [[(1, 11); (1, 11); (1, 21)]; [(3, 13)]] /\
+    map (map (fun u => (u_index u, u_version u))) us = [[(0%nat, 2); (1%nat, 2)]; [(0%nat, 4); (0%nat, 5); (0%nat, 6)]].
+Proof.
+  split; [vm_compute; reflexivity|]. split; [vm_compute; reflexivity|].
+  eexists. eexists. split; [vm_compute; reflexivity|]. split; vm_compute; reflexivity.
+Qed.
+
+(* delete -> undelete between parent versions under IgnoreInconsistency: the deleted v2 is skipped,
+   the update list is [v3]; at a time after v3 the side condition of theorems 9/13/16 holds (the
+   version current at t, v3, is visible) and the reference carries v3 = current_at; at a time
+   between v2 and v3 the version current at t is the deleted v2 and no claim is made *)
+Example C11_instance_delete_undelete :
+  exists ps' us,
+    compute_with t_cis u_opts u_parents u_hist u_entries (isort less) = Ok (ps', [us]) /\
+    map u_version us = [3] /\
+    (forall e, current_at t_cis u_cl (t_t 4) = Some e -> c_visible e = true) /\
+    option_map c_version (current_at t_cis u_cl (t_t 4)) = Some 3 /\
+    (exists refs pend, apply_updates_up_to false (t_t 4) (flat_map p_refs ps') us = ApplyOk refs pend
+                       /\ map r_version refs = [3]) /\
+    option_map c_visible (current_at t_cis u_cl (t_t 2)) = Some false.
+Proof.
+  eexists. eexists. split; [vm_compute; reflexivity|]. split; [vm_compute; reflexivity|].
+  split; [intros e He; vm_compute in He; inversion He; reflexivity|].
+  split; [vm_compute; reflexivity|].
+  split; [eexists; eexists; split; vm_compute; reflexivity|vm_compute; reflexivity].
 Qed.
 
 (* 15. tie by translation: the decision functions regenerated from /repo's Go source on every run
